@@ -314,7 +314,8 @@ def run(rep, tier):
     asan = core.Svh('asan', timeout=20)
     gates, hashes = gatetable.regenerate(asan)
     names = stimtext.Names(gates)
-    rep.set_proof(core.prove(['Properties_C07.v']))
+    from checks import c11
+    rep.set_proof(c11.prove_shared(['Properties_C07.v']))
     rep.trusted += ['Coq 8.16.1 kernel', 'harness/c07.cc', 'ASan/UBSan, per-request time limit, RSS measurement',
                     'the generator\'s own notion of the intended structure (vlib/stimtext.py target encodings)']
     rep.assumptions += ['floating point formatting/parsing (printf %g / strtod) is exercised, not modelled',
